@@ -407,7 +407,14 @@ def run_harness(ctx, h, tier=None, replay=None, n_mult=None):
     if n_mult:
         env["VERIF_N"] = str(n_mult)
     env.update(h.extra_env)
-    cmd = ["go", "test", "-overlay=" + ovp, "-count=1", "-vet=off", "-tags=" + h.tags,
+    # never let `go test -mod=mod` rewrite /repo/<module>/go.mod or go.sum (it moves "// indirect" requirements when a
+    # harness imports such a module directly): work on a private copy handed over with -modfile
+    modfile = os.path.join(ctx.work, "gomod_%s.mod" % h.name)
+    moddir = os.path.join(REPO, h.module)
+    shutil.copyfile(os.path.join(moddir, "go.mod"), modfile)
+    if os.path.exists(os.path.join(moddir, "go.sum")):
+        shutil.copyfile(os.path.join(moddir, "go.sum"), modfile[:-4] + ".sum")
+    cmd = ["go", "test", "-modfile=" + modfile, "-overlay=" + ovp, "-count=1", "-vet=off", "-tags=" + h.tags,
            "-run", h.run, "-timeout", "%ds" % h.timeout] + (["-race"] if h.race else []) + h.extra_args + [h.pkg]
     t0 = time.time()
     rc, out = run(cmd, cwd=os.path.join(REPO, h.module), env=env, timeout=h.timeout + 120)
